@@ -4,7 +4,10 @@
 package cases
 
 import (
+	"bufio"
+	"bytes"
 	"encoding/json"
+	"io"
 	"sort"
 	"strconv"
 	"strings"
@@ -305,6 +308,34 @@ var Cases = map[string]func(x, y int64) int64{
 			r += 1 << 51
 		}
 		return r
+	},
+	"bufio": func(x, y int64) int64 {
+		data := []byte("type: t\nk: xxxxxxxx\n\nSI\n\ntype: t\nk: \nbody-length: 1\n\nB\n\nSI\n")
+		var rd io.Reader = bytes.NewReader(data)
+		b := bufio.NewReaderSize(rd, 16)
+		r := int64(0)
+		size := 16
+		for round := 0; round < 6; round++ {
+			buf, err := b.Peek(size)
+			if err == bufio.ErrBufferFull {
+				rebuf, _ := b.Peek(b.Buffered())
+				mr := io.MultiReader(bytes.NewBuffer(rebuf), rd)
+				b = bufio.NewReaderSize(mr, (size/16+1)*16)
+				buf, err = b.Peek(size)
+			}
+			i := bytes.Index(buf, []byte("\n\n"))
+			if Debug {
+				println("round", round, "size", size, "len", len(buf), "idx", i, "err", err != nil, "buffered", b.Buffered(), string(buf))
+			}
+			r = r*31 + int64(len(buf))*7 + int64(i)
+			if i >= 0 {
+				b.Discard(i + 2)
+				size = 16
+			} else {
+				size *= 2
+			}
+		}
+		return r + x - x + y - y
 	},
 	"variadic": func(x, y int64) int64 {
 		sum := func(v ...int64) (s int64) { for _, e := range v { s += e }; return }
